@@ -185,6 +185,10 @@ Deep ==
     [k |-> "seq", tags |-> <<>>, comps |-> << Comp("id", Sc("bool", <<>>), "req"),
           CompD("routes", [k |-> "seqof", tags |-> <<>>, of |-> Route],
                 [es |-> << [cs |-> << [p |-> TRUE, v |-> I(1)], [p |-> TRUE, v |-> [b |-> TRUE]] >>] >>]) >>],
+    \* OPTIONAL members of type NULL (whose Python image is None), present and absent
+    [k |-> "seq", tags |-> <<>>, comps |-> << Comp("a", Sc("int", <<>>), "req"), Comp("n", Sc("null", <<>>), "opt"),
+                                              Comp("m", Sc("null", <<Ctx(0)>>), "opt"), Comp("o", Sc("octs", <<>>), "req") >>],
+    [k |-> "set", tags |-> <<>>, comps |-> << Comp("a", Sc("int", <<>>), "req"), Comp("n", Sc("null", <<>>), "opt") >>],
     \* CHOICE between two multi-octet identifiers with the same leading octet
     [k |-> "choice", tags |-> <<>>, alts |-> << [name |-> "ping", t |-> Sc("int", <<Ctx(31)>>)], [name |-> "pong", t |-> Sc("int", <<Ctx(32)>>)],
                                                [name |-> "pang", t |-> Sc("int", <<CtxE(33)>>)] >>] }
